@@ -20,13 +20,18 @@ EXAMPLES = os.path.join(vlib.REPO, "res", "examples")
 NPROC = vlib.NPROC
 
 
-def anthem_exe():
+def anthem_exe(features=None):
     """The anthem CLI built from the CURRENT working tree of the repository under test, in a
-    target directory that belongs to the framework (the repository itself is not written to)."""
+    target directory that belongs to the framework (the repository itself is not written to).
+    `features="verif"`: a second binary with that cargo feature, in a target directory of its own
+    (the binary every other run uses is the one built without features, as shipped)."""
     tag = hashlib.sha256(os.path.realpath(vlib.REPO).encode()).hexdigest()[:10]
+    if features:
+        tag += "-" + features.replace(",", "-")
     target = os.path.join(vlib.WORK, "anthem-target-" + tag)
     with vlib.Lock("cargo-cli-" + tag):
-        p = vlib.sh(f"timeout 1800 cargo build --offline --manifest-path {vlib.REPO}/Cargo.toml --target-dir {target} 2>&1",
+        p = vlib.sh(f"timeout 1800 cargo build --offline --manifest-path {vlib.REPO}/Cargo.toml --target-dir {target}"
+                    + (f" --features {features}" if features else "") + " 2>&1",
                     check=False, timeout=1900)
         if p.returncode != 0:
             raise Broken("harness: the anthem CLI of the working tree does not build", p.stdout[-4000:])
